@@ -29,3 +29,12 @@ Theorem C13_exclusion_sees_directory_slash : forall exclmatch cf path,
   is_excluded exclmatch cf path true = exclmatch (path ++ [cSLc]) /\ is_excluded exclmatch cf path false = exclmatch path.
 Proof. exact excluded_dir_slash. Qed.
 Print Assumptions C13_exclusion_sees_directory_slash.
+
+(* NEGATE vs exclude=: once an `exclude=` argument is given (even an empty one) the pattern list is read without NEGATE,
+   for every flag word (Glob.__init__ translated from the source on every run) *)
+From WC.Gen Require FlagFuns.
+From WC.Proofs Require GlobInit.
+Theorem C13_exclude_disables_negate : forall P f,
+  let '(_, _, _, _, _, _, _, _, _, _, _, negate, _, _, _, _, _, _) := FlagFuns.glob_init_flags P true f in negate = false.
+Proof. exact GlobInit.glob_init_exclude_disables_negate. Qed.
+Print Assumptions C13_exclude_disables_negate.
